@@ -15,4 +15,6 @@ THEOREMS = [P + n for n in (
     # session 4
     "boot_map_template", "boot_interleave", "boot_interpose", "boot_frequencies_group_by", "boot_sort_wrappers",
     "mirror_push_word", "mirror_push_uint", "mirror_new_filled_push_pop", "boot_flatten_reverse_merge", "boot_map_any_arity", "mirror_scanformat", "format_error_where_scan_raises",
+    # session 4c
+    "format_item_exact_or_error", "format_item_strict_test_appends_terminator",
 )]
